@@ -152,7 +152,7 @@ KEYS = [b"k", "k", b"p:k", b"y", "p:", b"", "", b" ", b"a b", b"a\r\nb", b"a\nge
 VALUES = [b"v", b"", b"\r\n", b"END\r\n", b"x\r\nset inj 0 0 1\r\ny\r\n", "str", "\xe9", 5, -5, True, b"VALUE k 0 1\r\nz\r\nEND\r\n", b"x" * 5000]
 EXPIRES = [0, 1, -1, 2 ** 63 - 1, -2 ** 63, True, False, "5", 5.0, None, b"5"]
 FLAGS = [None, 0, 7, 2 ** 32 - 1, True, "7", "0 0 1\r\nx\r\nset inj 0 0 1", b"7", 1.5, False, "", b"", 0.0, [], ()]
-CASES = [b"123", 123, "123", b"12 3", b"1\r\n", "١٢", "１２３", "²", "1٢3", -1, True, b"", b"007", None, "1 noreply"]
+CASES = [b"123", 123, "123", b"12 3", b"1\r\n", b"123\n", "0\n", b"1\r", "1\x0b", "1\x00", " 1", "\n1", b"1\n noreply", "١٢", "１２３", "²", "1٢3", -1, True, b"", b"007", None, "1 noreply"]
 DELTAS = [1, 0, 2 ** 64 - 1, True, "1", 1.0, None, b"1"]
 PREFIXES = [b"", b"p:", b"p ", b"y" * 248, b"\r\n"]
 
